@@ -982,13 +982,50 @@ package lorawan
 //@   props C02 C10
 //@   requires typed-nil: istype(p.MACPayload, "*MACPayload") ==> mpl(p) != nil
 //@   modifies nothing
+//@   let da = mpl(p).FHDR.DevAddr
+//@   let fc = mpl(p).FHDR.FCnt
+//@   let ack = mpl(p).FHDR.FCtrl.ACK
+//@   let hb = mhdr_byte(p.MHDR)
 //@   ensures C02/type: err == nil ==> istype(p.MACPayload, "*MACPayload")
-//@   ensures C02/mic10: err == nil && macVersion == LoRaWAN1_0 ==> result0[0] == cmac(fNwkSIntKey, cat(blk_up0(mpl(p).FHDR.DevAddr, mpl(p).FHDR.FCnt, 1 + len(callres("(MACPayload).MarshalBinary", 0)[0])), micmsg(p.MHDR, callres("(MACPayload).MarshalBinary", 0)[0])))[0] && result0[1] == cmac(fNwkSIntKey, cat(blk_up0(mpl(p).FHDR.DevAddr, mpl(p).FHDR.FCnt, 1 + len(callres("(MACPayload).MarshalBinary", 0)[0])), micmsg(p.MHDR, callres("(MACPayload).MarshalBinary", 0)[0])))[1] && result0[2] == cmac(fNwkSIntKey, cat(blk_up0(mpl(p).FHDR.DevAddr, mpl(p).FHDR.FCnt, 1 + len(callres("(MACPayload).MarshalBinary", 0)[0])), micmsg(p.MHDR, callres("(MACPayload).MarshalBinary", 0)[0])))[2] && result0[3] == cmac(fNwkSIntKey, cat(blk_up0(mpl(p).FHDR.DevAddr, mpl(p).FHDR.FCnt, 1 + len(callres("(MACPayload).MarshalBinary", 0)[0])), micmsg(p.MHDR, callres("(MACPayload).MarshalBinary", 0)[0])))[3]
-//@   ensures C02/mic11: err == nil && macVersion != LoRaWAN1_0 ==> result0[0] == cmac(sNwkSIntKey, cat(blk_up1(conf_up(mpl(p).FHDR.FCtrl.ACK, confFCnt), txDR, txCh, mpl(p).FHDR.DevAddr, mpl(p).FHDR.FCnt, 1 + len(callres("(MACPayload).MarshalBinary", 0)[0])), micmsg(p.MHDR, callres("(MACPayload).MarshalBinary", 0)[0])))[0] && result0[1] == cmac(sNwkSIntKey, cat(blk_up1(conf_up(mpl(p).FHDR.FCtrl.ACK, confFCnt), txDR, txCh, mpl(p).FHDR.DevAddr, mpl(p).FHDR.FCnt, 1 + len(callres("(MACPayload).MarshalBinary", 0)[0])), micmsg(p.MHDR, callres("(MACPayload).MarshalBinary", 0)[0])))[1] && result0[2] == cmac(fNwkSIntKey, cat(blk_up0(mpl(p).FHDR.DevAddr, mpl(p).FHDR.FCnt, 1 + len(callres("(MACPayload).MarshalBinary", 0)[0])), micmsg(p.MHDR, callres("(MACPayload).MarshalBinary", 0)[0])))[0] && result0[3] == cmac(fNwkSIntKey, cat(blk_up0(mpl(p).FHDR.DevAddr, mpl(p).FHDR.FCnt, 1 + len(callres("(MACPayload).MarshalBinary", 0)[0])), micmsg(p.MHDR, callres("(MACPayload).MarshalBinary", 0)[0])))[1]
+//@   ensures C02/mic10: err == nil && macVersion == LoRaWAN1_0 ==> result0[0] == cmac(fNwkSIntKey, cat(blk_up0(da, fc, 1 + len(callres("(MACPayload).MarshalBinary", 0)[0])), cat(seq(hb), bytes(callres("(MACPayload).MarshalBinary", 0)[0]))))[0] && result0[1] == cmac(fNwkSIntKey, cat(blk_up0(da, fc, 1 + len(callres("(MACPayload).MarshalBinary", 0)[0])), cat(seq(hb), bytes(callres("(MACPayload).MarshalBinary", 0)[0]))))[1] && result0[2] == cmac(fNwkSIntKey, cat(blk_up0(da, fc, 1 + len(callres("(MACPayload).MarshalBinary", 0)[0])), cat(seq(hb), bytes(callres("(MACPayload).MarshalBinary", 0)[0]))))[2] && result0[3] == cmac(fNwkSIntKey, cat(blk_up0(da, fc, 1 + len(callres("(MACPayload).MarshalBinary", 0)[0])), cat(seq(hb), bytes(callres("(MACPayload).MarshalBinary", 0)[0]))))[3]
+//@   ensures C02/mic11: err == nil && macVersion != LoRaWAN1_0 ==> result0[0] == cmac(sNwkSIntKey, cat(blk_up1(conf_up(ack, confFCnt), txDR, txCh, da, fc, 1 + len(callres("(MACPayload).MarshalBinary", 0)[0])), cat(seq(hb), bytes(callres("(MACPayload).MarshalBinary", 0)[0]))))[0] && result0[1] == cmac(sNwkSIntKey, cat(blk_up1(conf_up(ack, confFCnt), txDR, txCh, da, fc, 1 + len(callres("(MACPayload).MarshalBinary", 0)[0])), cat(seq(hb), bytes(callres("(MACPayload).MarshalBinary", 0)[0]))))[1] && result0[2] == cmac(fNwkSIntKey, cat(blk_up0(da, fc, 1 + len(callres("(MACPayload).MarshalBinary", 0)[0])), cat(seq(hb), bytes(callres("(MACPayload).MarshalBinary", 0)[0]))))[0] && result0[3] == cmac(fNwkSIntKey, cat(blk_up0(da, fc, 1 + len(callres("(MACPayload).MarshalBinary", 0)[0])), cat(seq(hb), bytes(callres("(MACPayload).MarshalBinary", 0)[0]))))[1]
 
 //@ func (*PHYPayload).calculateDownlinkDataMIC
 //@   props C02 C10
 //@   requires typed-nil: istype(p.MACPayload, "*MACPayload") ==> mpl(p) != nil
 //@   modifies nothing
+//@   let da = mpl(p).FHDR.DevAddr
+//@   let fc = mpl(p).FHDR.FCnt
+//@   let ack = mpl(p).FHDR.FCtrl.ACK
+//@   let hb = mhdr_byte(p.MHDR)
 //@   ensures C02/type: err == nil ==> istype(p.MACPayload, "*MACPayload")
-//@   ensures C02/mic: err == nil ==> result0[0] == cmac(sNwkSIntKey, cat(blk_down0(conf_down(macVersion, mpl(p).FHDR.FCtrl.ACK, confFCnt), mpl(p).FHDR.DevAddr, mpl(p).FHDR.FCnt, 1 + len(callres("(MACPayload).MarshalBinary", 0)[0])), micmsg(p.MHDR, callres("(MACPayload).MarshalBinary", 0)[0])))[0] && result0[1] == cmac(sNwkSIntKey, cat(blk_down0(conf_down(macVersion, mpl(p).FHDR.FCtrl.ACK, confFCnt), mpl(p).FHDR.DevAddr, mpl(p).FHDR.FCnt, 1 + len(callres("(MACPayload).MarshalBinary", 0)[0])), micmsg(p.MHDR, callres("(MACPayload).MarshalBinary", 0)[0])))[1] && result0[2] == cmac(sNwkSIntKey, cat(blk_down0(conf_down(macVersion, mpl(p).FHDR.FCtrl.ACK, confFCnt), mpl(p).FHDR.DevAddr, mpl(p).FHDR.FCnt, 1 + len(callres("(MACPayload).MarshalBinary", 0)[0])), micmsg(p.MHDR, callres("(MACPayload).MarshalBinary", 0)[0])))[2] && result0[3] == cmac(sNwkSIntKey, cat(blk_down0(conf_down(macVersion, mpl(p).FHDR.FCtrl.ACK, confFCnt), mpl(p).FHDR.DevAddr, mpl(p).FHDR.FCnt, 1 + len(callres("(MACPayload).MarshalBinary", 0)[0])), micmsg(p.MHDR, callres("(MACPayload).MarshalBinary", 0)[0])))[3]
+//@   ensures C02/mic: err == nil ==> result0[0] == cmac(sNwkSIntKey, cat(blk_down0(conf_down(macVersion, ack, confFCnt), da, fc, 1 + len(callres("(MACPayload).MarshalBinary", 0)[0])), cat(seq(hb), bytes(callres("(MACPayload).MarshalBinary", 0)[0]))))[0] && result0[1] == cmac(sNwkSIntKey, cat(blk_down0(conf_down(macVersion, ack, confFCnt), da, fc, 1 + len(callres("(MACPayload).MarshalBinary", 0)[0])), cat(seq(hb), bytes(callres("(MACPayload).MarshalBinary", 0)[0]))))[1] && result0[2] == cmac(sNwkSIntKey, cat(blk_down0(conf_down(macVersion, ack, confFCnt), da, fc, 1 + len(callres("(MACPayload).MarshalBinary", 0)[0])), cat(seq(hb), bytes(callres("(MACPayload).MarshalBinary", 0)[0]))))[2] && result0[3] == cmac(sNwkSIntKey, cat(blk_down0(conf_down(macVersion, ack, confFCnt), da, fc, 1 + len(callres("(MACPayload).MarshalBinary", 0)[0])), cat(seq(hb), bytes(callres("(MACPayload).MarshalBinary", 0)[0]))))[3]
+
+// Set*/Validate* use the value computed by calculate* (callres: the result of that call on the path)
+//@ func (*PHYPayload).SetUplinkDataMIC
+//@   props C02 C10
+//@   requires typed-nil: istype(p.MACPayload, "*MACPayload") ==> mpl(p) != nil
+//@   modifies p.MIC
+//@   ensures C02/set: err == nil ==> p.MIC == callres("(*PHYPayload).calculateUplinkDataMIC", 0)[0]
+//@   ensures C10/keep: err != nil ==> p.MIC == old(p.MIC)
+//@ func (*PHYPayload).SetDownlinkDataMIC
+//@   props C02 C10
+//@   requires typed-nil: istype(p.MACPayload, "*MACPayload") ==> mpl(p) != nil
+//@   modifies p.MIC
+//@   ensures C02/set: err == nil ==> p.MIC == callres("(*PHYPayload).calculateDownlinkDataMIC", 0)[0]
+//@   ensures C10/keep: err != nil ==> p.MIC == old(p.MIC)
+//@ func (PHYPayload).ValidateUplinkDataMIC
+//@   props C02 C10
+//@   requires typed-nil: istype(p.MACPayload, "*MACPayload") ==> mpl(p) != nil
+//@   modifies nothing
+//@   ensures C02/validate: err == nil ==> result0 == (p.MIC == callres("(*PHYPayload).calculateUplinkDataMIC", 0)[0])
+//@ func (PHYPayload).ValidateDownlinkDataMIC
+//@   props C02 C10
+//@   requires typed-nil: istype(p.MACPayload, "*MACPayload") ==> mpl(p) != nil
+//@   modifies nothing
+//@   ensures C02/validate: err == nil ==> result0 == (p.MIC == callres("(*PHYPayload).calculateDownlinkDataMIC", 0)[0])
+//@ func (PHYPayload).ValidateUplinkDataMICF
+//@   props C02 C10
+//@   requires typed-nil: istype(p.MACPayload, "*MACPayload") ==> mpl(p) != nil
+//@   modifies nothing
+//@   ensures C02/validate: err == nil ==> result0 == (p.MIC[2] == callres("(*PHYPayload).calculateUplinkDataMIC", 0)[0][2] && p.MIC[3] == callres("(*PHYPayload).calculateUplinkDataMIC", 0)[0][3])
